@@ -571,10 +571,16 @@ func (s *Server) FastInvoke(w http.ResponseWriter, i *interop.Invoke, direct boo
 
 			if cachedInitError := s.getCachedInitErrorResponse(); cachedInitError != nil {
 				// /init/error was called
-				s.trySendDefaultErrorResponse(cachedInitError)
+				s.trySendDefaultErrorResponse(i.ID, cachedInitError)
 			} else {
 				// sent only if /error and /response not called
-				s.trySendDefaultErrorResponse(invokeFailure.DefaultErrorResponse)
+				s.trySendDefaultErrorResponse(i.ID, invokeFailure.DefaultErrorResponse)
+			}
+			if s.GetCurrentInvokeID() != i.ID {
+				// The reservation of this invocation is gone (it timed out and was reset
+				// in the meantime); a DONE sent now would be taken for the outcome of
+				// whichever invocation reserves next.
+				return
 			}
 			doneFail := doneFailFromInvokeFailure(invokeFailure)
 			s.InvokeDoneChan <- DoneWithState{
@@ -610,9 +616,13 @@ func (s *Server) getCachedInitErrorResponse() *interop.ErrorInvokeResponse {
 	return s.cachedInitErrorResponse
 }
 
-func (s *Server) trySendDefaultErrorResponse(resp *interop.ErrorInvokeResponse) {
-	if err := s.SendErrorResponse(s.GetCurrentInvokeID(), resp); err != nil {
-		if err != interop.ErrResponseSent {
+// trySendDefaultErrorResponse sends the platform-generated error of the failed
+// invocation invokeID. The reservation may have been released (or replaced by
+// the next caller's) by the time the failure is handled, e.g. when the timeout
+// reset won the race: then there is nobody to send it to.
+func (s *Server) trySendDefaultErrorResponse(invokeID string, resp *interop.ErrorInvokeResponse) {
+	if err := s.SendErrorResponse(invokeID, resp); err != nil {
+		if err != interop.ErrResponseSent && err != interop.ErrInvalidInvokeID {
 			log.Panicf("Failed to send default error response: %s", err)
 		}
 	}
